@@ -256,3 +256,12 @@ Proof. exact (transcode_same_pairs latin1_decode latin1_decode_text q l). Qed.
 
 Theorem transcode_keeps_non_forms decode q : mem_n 61 q = false -> transcode_query decode q = Ok q.
 Proof. intros H. unfold transcode_query. rewrite H. reflexivity. Qed.
+
+(* the ascii codec returns text, so C09_decode_charset applies to Transcoder('ascii', <any errors>) *)
+Lemma ascii_decoder_text b s : ascii_decode_strict b = Some s -> valid_text s = true.
+Proof.
+  unfold ascii_decode_strict. destruct (forallb (fun c => c <? 128) b) eqn:E; [|discriminate].
+  intros H. injection H as <-. unfold valid_text.
+  induction b as [|c b IH]; [reflexivity|]. cbn [forallb] in *.
+  apply andb_true_iff in E as [Hc Hb]. rewrite (IH Hb), andb_true_r. unfold is_scalar. lia.
+Qed.
